@@ -358,4 +358,38 @@ theorem foldl_netStep {cfg : Cfg} (hc : cfg.asFound) (ops : List Op) :
       rw [← he]
       exact this
 
+/-! ### Helpers for the concrete instances in `Props.lean` (non-vacuity) -/
+
+def nodeOf (r : Except Err Node) : Node := match r with | .ok n => n | .error _ => Node.init
+theorem eq_ok_nodeOf {r : Except Err Node} (h : r.toOption.isSome = true) : r = .ok (nodeOf r) := by
+  cases r with
+  | ok n => rfl
+  | error e => cases h
+
+theorem withRoots_eq (cfg : Cfg) (nd : Node) (b : Block) :
+    ∃ r1 r2, withRoots cfg nd b = { b with oldRoot := r1, newRoot := r2 } := by
+  unfold withRoots
+  dsimp only
+  split
+  · exact ⟨_, _, rfl⟩
+  · exact ⟨_, _, rfl⟩
+
+/-- `StoreOK` does not look at the two roots. -/
+theorem storeOK_withRoots {cfg : Cfg} {nd : Node} {b : Block} (ok : StoreOK cfg nd b) :
+    StoreOK cfg nd (withRoots cfg nd b) := by
+  obtain ⟨r1, r2, h⟩ := withRoots_eq cfg nd b
+  rw [h]
+  exact ⟨⟨⟨ok.block.fresh.hash, ok.block.fresh.txs, ok.block.fresh.msgs⟩, ok.block.casmFresh, ok.block.migVer,
+      ok.block.dDep, ok.block.dRep, ok.block.dNon, ok.block.dSto, ok.block.dDecl, ok.block.dMig, ok.block.dDefs,
+      ok.block.depNotSys, ok.block.known0, ok.block.decl1, ok.block.defsListed⟩,
+    ⟨ok.safe.noEmptySys, ok.safe.noSysEmptied, ok.safe.noDupDeclared, ok.safe.window⟩⟩
+
+theorem sys_cases {a : Nat} (h : isSys a = true) : a = 1 ∨ a = 2 := by
+  simpa [isSys] using h
+
+theorem all_of_get {κ ν : Type} [DecidableEq κ] [KOrd κ] {m : Map κ ν} {P : κ → ν → Prop} (h : ∀ e ∈ m, P e.1 e.2) :
+    ∀ k v, Map.get m k = some v → P k v :=
+  fun k v hg => h (k, v) (mem_keys_of_get hg)
+
+
 end Juno.C04
